@@ -10,10 +10,11 @@
     F_ok F                  = F == 0 \/ 0 < F < 1 ;  cov_ok = non-negative, total one, some mass at depth >= 1
     pop_ok                  = valid statistics, even sizes, subsample <= sequenced, F_ok
     prob_vector n v         = length n, entries >= 0, sum == 1.   All theorems: any sizes, any number of populations. *)
-From Coq Require Import ZArith QArith List Bool Arith Lia Sorted.
+From Coq Require Import ZArith QArith Qabs List Bool Arith Lia Sorted.
 From Dadi Require Import Model.LowPass Proofs.LowPassPart Proofs.LowPassQ Proofs.LowPassProb Proofs.LowPassMat
   Proofs.LowPassCall Proofs.LowPassTens Proofs.LowPassTotal Proofs.LowPassGet Proofs.LowPassDeep Proofs.LowPassF0.
 From Dadi Require Import Model.LowPassCheck Model.LowPassSim Model.LowPassSimCheck Proofs.LowPassSimExp Proofs.LowPassSimDraw Proofs.LowPassSimDeep.
+From Dadi Require Import Proofs.LowPassF0All Proofs.LowPassPermPrefix Proofs.LowPassDeepRate.
 Import ListNotations.
 Local Open Scope Q_scope.
 
@@ -230,3 +231,53 @@ Proof.
   - split; [apply stats_of_valid, C|]. cbn. repeat split; try lia. right. split; reflexivity.
   - split; [reflexivity|]. split; [|cbn; lia]. split; [apply deep_stats_valid|]. cbn. repeat split; try lia. left. reflexivity.
 Qed.
+
+(** ** the statements above marked _partial (bounded sizes / statistics only), at full strength *)
+(** F -> 0 for the subsampling matrix, whose F = 0 branch is a different formula (hypergeometric): for ALL even sizes the
+    inbreeding form evaluated at F = 0 is the hypergeometric row *)
+Theorem C18_F_to_0_projection_matrix : forall hn hm j, (hm <= hn)%nat -> (j <= 2 * hn)%nat ->
+  Forall2 Qeq (proj_row_inb (2 * hn) (2 * hm) 0 j) (hyper_row (2 * hn) (2 * hm) j).
+Proof. exact proj_matrix_F0_consistent. Qed.
+Print Assumptions C18_F_to_0_projection_matrix.
+(** ... the counting identity behind it: the Hardy-Weinberg weights of the partitions of allele count j add up to C(2n, j) *)
+Theorem C18_partition_weights_total : forall hn j, qsum (map ways0 (parts (2 * hn) j)) == binQ (2 * hn) j.
+Proof. exact ways0_total_parts. Qed.
+Print Assumptions C18_partition_weights_total.
+
+Theorem C18_expected_row_is_projection_matrix_row_F0 : forall hn hm j, (hm <= hn)%nat -> (j <= 2 * hn)%nat ->
+  Forall2 Qeq (expected_row (2 * hn) (2 * hm) 0 j) (nth j (proj_matrix (2 * hn) (2 * hm) 0) []).
+Proof. exact expected_row_is_projection_matrix_row_F0. Qed.
+Print Assumptions C18_expected_row_is_projection_matrix_row_F0.
+
+Theorem C18_permutation_prefix_is_uniform_subset : forall n k, (k <= n)%nat -> perm_prefix_uniform n k = true.
+Proof. exact perm_prefix_uniform_all. Qed.
+Theorem C18_permutation_prefix_count : forall n k S, NoDup S -> incl S (seq 0 n) -> length S = k ->
+  length (filter (fun p => lnat_eqb (sort_row (firstn k p)) (sort_row S)) (perms_of n (seq 0 n))) = (fact k * fact (n - k))%nat.
+Proof. exact prefix_subset_count. Qed.
+Print Assumptions C18_permutation_prefix_is_uniform_subset.
+
+Theorem C18_deep_rate_statistics : forall d pops thr (sim : list nat -> tens d) (model : tens d) (Bm : Q),
+  length pops = d -> Forall near_deep pops -> Forall (fun p => nc_bound p <= Bm) pops -> 0 <= Bm -> Bm <= thr ->
+  shape_le d pops model -> tall d (fun m => 0 <= m) model -> tget d model (repeat 0%nat d) == 0 ->
+  forall idx, length idx = d ->
+  Qabs (tget d (lowpass d pops thr sim model) idx - tget d (plain_projection d pops model) idx)
+  <= (Bm + qsum (map het_bound pops)) * ttotal d model.
+Proof. exact deep_rate. Qed.
+Theorem C18_deep_coverage_rate : forall d pops thr (sim : list nat -> tens d) (model : tens d) D Nm,
+  length pops = d -> (2 <= D)%nat -> Forall (covered_from D) pops -> Forall sizes_ok pops ->
+  Forall (fun p => (p_nseq p / 2 <= Nm)%nat) pops -> (1 + qnat Nm * qnat D) * qpow half D <= thr ->
+  shape_le d pops model -> tall d (fun m => 0 <= m) model -> tget d model (repeat 0%nat d) == 0 ->
+  forall idx, length idx = d ->
+  Qabs (tget d (lowpass d pops thr sim model) idx - tget d (plain_projection d pops model) idx)
+  <= (1 + qnat Nm * qnat D + 2 * qsum (map (fun p => qnat (p_nsub p / 2)) pops)) * qpow half D * ttotal d model.
+Proof. exact deep_coverage_rate. Qed.
+Theorem C18_deep_coverage_rate_one_pop : forall p cov D thr (sim : list nat -> tens 1) (model : tens 1),
+  cov_ok cov -> supported_from D cov -> (2 <= D)%nat -> p_st p = stats_of cov -> sizes_ok p ->
+  (1 + qnat (p_nseq p / 2) * qnat D) * qpow half D <= thr ->
+  shape_le 1 [p] model -> tall 1 (fun m => 0 <= m) model -> tget 1 model [0%nat] == 0 ->
+  forall i,
+  Qabs (tget 1 (lowpass 1 [p] thr sim model) [i] - tget 1 (plain_projection 1 [p] model) [i])
+  <= (2 * qnat (p_nsub p / 2) + 1 + qnat (p_nseq p / 2) * qnat D) * qpow half D * ttotal 1 model.
+Proof. exact deep_coverage_rate_one_pop. Qed.
+Print Assumptions C18_deep_rate_statistics.
+Print Assumptions C18_deep_coverage_rate.
